@@ -1,6 +1,7 @@
 (* Properties_C02.v — C02: every finished output is one well-formed, schema-valid C-DNS document.
    Only statements live here. *)
-Require Import Base Cbor EncoderModel DecoderModel DecoderProofs Schema SchemaProofs Block Exporter ExporterProofs Properties_C09.
+Require Import Base Cbor EncoderModel DecoderModel DecoderProofs Schema SchemaProofs Block Exporter ExporterProofs Properties_C09
+               BlockRead FileProofs.
 Local Open Scope N_scope.
 
 (* what any structure of the format writes is the serialisation of exactly ONE well-formed CBOR item (the canonical tree
@@ -53,6 +54,32 @@ Proof.
   intros pre ops. pose proof (xrun_inv ops (x_new pre) (x_new_inv pre)) as [_ H]. eapply Forall_impl; [|exact H]. cbn. tauto.
 Qed.
 Print Assumptions C02_blocks_nonempty.
+
+(* WHOLE OUTPUTS.  Over every admissible history whose values stay within the ranges of the format, every closed output and
+   the open output as destruction closes it is either empty (no block was written to it) or exactly ONE well-formed CBOR
+   data item: the definite 3-element file array ["C-DNS", preamble, indefinite array of the blocks written to it, break] —
+   nothing before it, nothing after it, every declared length equal to the members present. *)
+Theorem C02_output_is_one_item : forall pre bs, bs <> [] -> typed_pre pre -> Forall typed_blk bs ->
+  file_bytes pre bs = ser (file_tree pre bs) /\ wf (file_tree pre bs).
+Proof. exact file_is_one_item. Qed.
+Print Assumptions C02_output_is_one_item.
+Theorem C02_outputs_of_history : forall pre ops, typed_pre pre -> adm0 pre ops -> typed_x (xrun (x_new pre) ops) ->
+  let x := xrun (x_new pre) ops in
+  exists (last : val) cur closed,
+    x_closed x = map (fun pb => file_bytes (fst pb) (snd pb)) closed /\
+    destroy x = file_bytes last cur /\
+    x_done x = flat_map snd (rev closed) ++ cur /\
+    Forall reads_back ((last, cur) :: closed).
+Proof. exact history_outputs. Qed.
+Print Assumptions C02_outputs_of_history.
+(* ... and a generic CBOR reader consumes such an output as exactly one item *)
+Theorem C02_output_skips : forall pre bs g, bs <> [] -> typed_pre pre -> Forall typed_blk bs ->
+  (length (file_bytes pre bs) <= g)%nat -> run (skip_item g) (file_bytes pre bs) = (inl tt, []).
+Proof.
+  intros pre bs g Hne Tp Tb Hg. destruct (file_is_one_item pre bs Hne Tp Tb) as [He Hw]. rewrite He in *.
+  rewrite <- (app_nil_r (ser _)). apply skip_item_spec; auto.
+Qed.
+Print Assumptions C02_output_skips.
 
 Example C02_nonvacuous : has_ty BlockStatistics (VR [None; None; Some (VN 7); None; None; None]) /\
   fst (write_struct BlockStatistics (VR [None; None; Some (VN 7); None; None; None])) = [161; 2; 7].
